@@ -3,6 +3,7 @@
 From ToughV Require Export Model.Base Model.Editor.
 From ToughV Require Export Proofs.EditorP.
 From ToughV Require Export Model.Json Model.CJson Model.Schema Proofs.CJsonP Proofs.CJsonInjP Proofs.SchemaP.
+From ToughV Require Export Model.Sig Model.Glob Model.Deleg Model.Client Model.EditorRT Model.EdOps Proofs.EdOpsP.
 
 Theorem C17_preserved : forall v added,
   let v' := update true v added in
@@ -36,3 +37,20 @@ Theorem C17_lossy_levels :
   /\ lossy_levels targets_schema = [[n_delegations]; [n_delegations; n_roles; n_star]].
 Proof. exact catch_all_levels. Qed.
 Print Assumptions C17_lossy_levels.
+
+(* The same on the model of the editing operations (Model/EdOps.v, the state machine of RepositoryEditor and
+   TargetsEditor that C10 runs against the real editor): an update - from_repo on a loaded repository, then any
+   number of additions, removals, new versions and expirations, then sign - hands to sign the delegation
+   structure it loaded (every delegated role with its header, document, own delegations and signatures: the
+   children of the top node, unchanged) and the key table of the top-level delegations, and changes the
+   top-level targets by exactly the additions and removals made. *)
+Theorem C17_update_preserves_tree : forall r st top st1 seg keys ss,
+  rd_top st = Some top ->
+  ed_step r st OpFromRepo = Some st1 ->
+  forallb plain seg = true ->
+  ed_at_sign (fst (ed_run r st1 seg)) keys = Some ss ->
+  ss_children ss = en_children top
+  /\ ss_dkeys ss = en_dkeys top
+  /\ forall n, lookup_target n (e_entries (ss_edit ss)) = spec_targets seg (fun x => lookup_target x (en_entries top)) n.
+Proof. exact update_preserves_tree. Qed.
+Print Assumptions C17_update_preserves_tree.
